@@ -20,7 +20,7 @@ def RAISE_ORACLE(profile):
 
 FAULT_KINDS = ['absent_column', 'dup_name', 'draws_outside', 'rv_outside', 'hess_without_grad', 'bad_choice_key',
                'bad_avail_keys', 'nan_data', 'text_data', 'empty_data', 'panel_outside', 'nests_overlap',
-               'nests_outside', 'missing_read', 'missing_unread']
+               'nests_outside', 'nests_overlap_far', 'panel_outside_mc', 'missing_read', 'missing_unread']
 
 
 def make_config(rng, profile, tier):
